@@ -82,7 +82,7 @@ static UNIVERSE: Lazy<Vec<String>> = Lazy::new(|| {
     format!("did:jwk:{}", b64url(format!(r#"{{"kty":"OKP","crv":"X25519","use":"enc","x":"{}"}}"#, b64url(&bytes(32, 9, 5))).as_bytes())),
   ]
 });
-const ALIAS_DID: &str = "did:foo:A.b-_%41:z";
+const ALIAS_DID: &str = "did:foo:A.b-_%41%3a%eF:z"; // (percent-encoded triplets: digits only, lower-case hex, mixed case)
 const ALIAS_TARGET: &str = "did:foo:1";
 const PICKY_REJECTED: &str = "did:foo:9";
 static DIDS: Lazy<Vec<CoreDID>> = Lazy::new(|| UNIVERSE.iter().map(|s| CoreDID::parse(s).expect("harness universe DID")).collect());
